@@ -75,7 +75,15 @@ func verifLemmaTraversalComplete(E iface.IPFSLogOrderedEntries, H iface.IPFSLogO
 //@ @lin ensures [traverse-visits-its-roots] rootEntries != nil && amount < 0 && (forall k string :: has(omv(rootEntries), k) || has(ent(l), k) ==> k != endHash) ==> visitsRoots(rootEntries, result0)
 //@ @lin ensures [traverse-follows-every-link-into-the-log] rootEntries != nil && amount < 0 && (forall k string :: has(omv(rootEntries), k) || has(ent(l), k) ==> k != endHash) ==> followsLinks(result0, l.Entries)
 //@ @lin ensures [traverse-returns-root-or-log-objects] rootEntries != nil ==> forall k string :: has(omv(result0), k) ==> (has(omv(rootEntries), k) && omv(result0)[k] == omv(rootEntries)[k]) || (has(ent(l), k) && omv(result0)[k] == ent(l)[k])
+//@ @lin assert "count++" [root-index-stays-valid-after-a-visit] isOM(rootEntries)
+//@ @lin assert "count++" [visited-index-stays-valid-after-a-visit] validEntries(result)
+//@ @lin assert "count++" [entry-index-stays-a-map-after-a-visit] isOM(l.Entries)
+//@ @lin assert "count++" [entry-index-stays-keyed-by-hash-after-a-visit] forall k string :: has(ent(l), k) ==> validEntry(ent(l)[k]) && ehash(ent(l)[k]) == k
+//@ @lin assert "stack = append([]iface.IPFSLogEntry{next}, stack...)" [pushed-predecessor-is-named-by-the-current-entry] ordH(l.SortFn, ehash(e), ehash(next)) > 0
+//@ @lin assert "stack = append([]iface.IPFSLogEntry{next}, stack...)" [pushed-predecessor-lies-below-every-visited-entry] forall k string :: has(omv(result), k) ==> ordH(l.SortFn, k, ehash(next)) >= 0
+//@ @lin ensures [traverse-leaves-the-indexes-valid] rootEntries != nil ==> validEntries(l.Entries) && isOM(rootEntries)
 //@ @lin ensures [visited-objects-agree-with-the-log-on-links] rootEntries != nil ==> linksAgree(result0, l.Entries)
+//@ @lin ensures [visited-entries-form-a-valid-index] rootEntries != nil ==> validEntries(result0)
 //@ @lin uselemma verifLemmaTraversalComplete(l.Entries, rootEntries, result0, _)
 //@ @lin ensures [traverse-is-complete] rootEntries != nil && amount < 0 && (forall k string :: has(omv(rootEntries), k) || has(ent(l), k) ==> k != endHash) && linksAgree(rootEntries, l.Entries) && connectedUp(l.Entries, rootEntries) ==> forall x string :: has(ent(l), x) ==> has(omv(result0), x)
 //@   requires l != nil && validEntries(l.Entries) && l.SortFn != nil
@@ -92,6 +100,7 @@ func verifLemmaTraversalComplete(E iface.IPFSLogOrderedEntries, H iface.IPFSLogO
 //@     invariant amount >= 0 ==> 0 <= count && len(om(result).keys) <= count && count <= amount
 //@     invariant forall k string :: has(om(result).values, k) ==> inMap(rootEntries, om(result).values[k]) || inMap(l.Entries, om(result).values[k])
 //@     invariant forall i int :: 0 <= i && i < len(stack) ==> inMap(rootEntries, stack[i]) || inMap(l.Entries, stack[i])
+//@ @lin invariant [indexes-stay-valid] validEntries(l.Entries) && isOM(rootEntries)
 //@ @lin invariant [pending-entries-are-sorted] descending(l.SortFn, stack)
 //@ @lin invariant [visited-entries-dominate-pending-ones] forall k string, i int :: has(omv(result), k) && 0 <= i && i < len(stack) ==> ordH(l.SortFn, k, ehash(stack[i])) >= 0
 //@ @lin invariant [visit-order-is-descending] forall i int, j int :: 0 <= i && i < j && j < len(om(result).keys) ==> ordH(l.SortFn, om(result).keys[i], om(result).keys[j]) >= 0
@@ -109,6 +118,7 @@ func verifLemmaTraversalComplete(E iface.IPFSLogOrderedEntries, H iface.IPFSLogO
 //@     invariant forall i int :: 0 <= i && i < len(stack) ==> inMap(rootEntries, stack[i]) || inMap(l.Entries, stack[i])
 //@     invariant validEntry(e)
 //@ @lin invariant has(omv(result), ehash(e)) && omv(result)[ehash(e)] == e && has(traversed, ehash(e)) && ehash(e) != endHash
+//@ @lin invariant [indexes-stay-valid] validEntries(l.Entries) && isOM(rootEntries)
 //@ @lin invariant [pending-entries-stay-sorted-until-one-is-added] !modified ==> descending(l.SortFn, stack)
 //@ @lin invariant [visited-entries-dominate-pending-ones] forall k string, i int :: has(omv(result), k) && 0 <= i && i < len(stack) ==> ordH(l.SortFn, k, ehash(stack[i])) >= 0
 //@ @lin invariant [visited-entries-dominate-the-current-one] forall k string :: has(omv(result), k) ==> ordH(l.SortFn, k, ehash(e)) >= 0
